@@ -459,7 +459,7 @@ def run(ctx):
         qmeta["q%d" % i] = (qs, exp)
         qcases.append(("q%d" % i, render_xml(m), "\n".join(qs)))
     qtext = "".join("%s %s %s\n" % (cid, base64.b64encode(x.encode()).decode(), base64.b64encode(q.encode()).decode()) for cid, x, q in qcases)
-    rc, out, err, _ = core.run_exe(exe07, ["batch"], stdin_text=qtext, timeout=900)
+    rc, out, err, _ = core.run_exe(exe07, ["batch"], stdin_text=qtext, timeout=900, env=C08.ABORT_ENV)
     if rc != 0:
         ctx.finding("crash:" + C08.crash_site(err, rc), "c07 harness died rc=%s" % rc, {"stderr": err[-3000:]})
     qres, cur = {}, None
